@@ -165,7 +165,7 @@ func main() {
 			if !c.Thorough() && dc.class != "strings" && dc.class != "base" && k != i%len(cfgs) {
 				continue // quick: one configuration per non-string document, all of them for the string atoms
 			}
-			if cf.name == "expand.json" && (strings.Contains(dc.id, "circular") || strings.Contains(dc.id, "poly") || dc.id == "models.poly" || dc.id == "models.object") {
+			if cf.name == "expand.json" && (strings.Contains(dc.id, "circular") || strings.Contains(dc.id, "recursive") || strings.Contains(dc.id, "poly") || dc.id == "models.poly" || dc.id == "models.object" || difflib.HasCircularRef(dc.spec)) {
 				continue // documented: do not expand specs with polymorphic / recursive types
 			}
 			jobs = append(jobs, job{dc, cf})
